@@ -416,15 +416,18 @@ def main():
         if not line:
             print('')
             continue
-        signal.alarm(TIMEOUT)
         try:
-            out = handle(line)
+            signal.alarm(TIMEOUT)
+            try:
+                out = handle(line)
+            finally:
+                signal.alarm(0)
         except Timeout:
             out = 'TIMEOUT'
-        except (AssertionError, KeyError, IndexError, ValueError, TypeError, AttributeError, RecursionError, UnboundLocalError) as e:
+        except RecursionError:
+            out = 'ERR RecursionError'
+        except Exception as e:  # noqa: BLE001  (one bad case must not kill the whole chunk)
             out = 'ERR ' + type(e).__name__
-        finally:
-            signal.alarm(0)
         print(out)
         sys.stdout.flush()
 
